@@ -116,6 +116,9 @@ pub fn run_scenario(sc: &Scenario) -> Judged {
                     j.probes.add("prefix_nodes_total", st.searches[..first_suffix_search.unwrap_or(st.searches.len())].iter().map(|s| s.nodes).sum::<u64>());
                 }
                 j.probes.add("prefix_contained_interrupted_search", st.searches.iter().any(|s| s.first_expired_read.is_some()) as u64);
+                if sc.suffix.iter().any(|l| l.len() >= 1024) {
+                    j.probes.add("suffix_with_a_position_line_of_1_kib_or_more", 1);
+                }
                 j.probes.max("max_distinct_positions_cached_by_one_process", st.tt_new_keys);
             }
         }
@@ -156,7 +159,8 @@ pub fn run_scenario(sc: &Scenario) -> Judged {
     j.sim_suffix_transcript = suf0.clone();
     // the same script under the first key set on a machine a million times slower (1 ms of
     // virtual time per node, 2 ms per clock read): depth-limited output must not notice
-    if !sc.key_seeds.is_empty() {
+    // (not for the giant scenarios: they are there for the comparison with the fresh process)
+    if !sc.key_seeds.is_empty() && sc.suffix.iter().filter(|l| l.starts_with("go")).count() <= 8 {
         let mut st = sim_state(sc.key_seeds[0], &sc.forced, sc.node_cap);
         st.clock.cost_node_ns = 1_000_000;
         st.clock.cost_read_ns = 2_000_000;
@@ -321,7 +325,7 @@ pub fn generate_huge(seed: u64) -> Scenario {
     }
 }
 
-/// Eleven depth-7 searches of quiet opening positions in one game after a ucinewgame (more
+/// Ten depth-7 searches of quiet opening positions in one game after a ucinewgame (more
 /// than half a million distinct positions cached): beyond what a 16 MB table holds. One per
 /// quick batch, fifteen per thorough batch.
 pub fn generate_giant(seed: u64) -> Scenario {
@@ -332,7 +336,7 @@ pub fn generate_giant(seed: u64) -> Scenario {
     ];
     rng.shuffle(&mut opens);
     let mut suffix = vec![];
-    for o in opens.iter().take(11) {
+    for o in opens.iter().take(10) {
         suffix.push(format!("position startpos moves {}", o));
         suffix.push("go depth 7".to_string());
     }
@@ -432,6 +436,20 @@ pub fn generate(seed: u64, big: bool) -> Scenario {
             suffix.push("ucinewgame".to_string());
         }
         gen_game_lines(&mut rng, false, &mut suffix, &mut dummy, &mut o2);
+    }
+    if rng.chance(1, 15) {
+        // a long game (200-700 plies of piece shuffles after a few moves: a position line of
+        // 1-3.5 KB): where in the input stream the line falls differs between the session
+        // with the prefix and the fresh process
+        let (ms0, ps0) = gen::playout(&mut rng, &Pos::startpos(), 6, 0);
+        let target = rng.range(200, 700) as usize;
+        let (ms1, end) = gen::shuffle_history(ps0.last().unwrap(), target);
+        if !end.legal_moves().is_empty() {
+            let mut all = gen::moves_uci(&ms0);
+            all.extend(gen::moves_uci(&ms1));
+            suffix.push(format!("position startpos moves {}", all.join(" ")));
+            suffix.push(format!("go depth {}", rng.range(1, 3)));
+        }
     }
     if rng.chance(1, 3) {
         suffix.insert(0, "isready".into());
@@ -545,7 +563,7 @@ pub fn run(ctx: &Ctx) -> i32 {
         let j = run_scenario(&sc);
         let mut res = SimResult::default();
         if giant {
-            res.probes.add("giant_scenarios_eleven_depth7_searches_after_ucinewgame", 1);
+            res.probes.add("giant_scenarios_ten_depth7_searches_after_ucinewgame", 1);
         }
         res.evaluations = j.evaluations;
         res.distinct.push(hash_str(&sc.to_json().to_string()));
